@@ -470,6 +470,9 @@ func c06container(x *mc.X) {
 	n := x.Choose(4, "len")
 	withExec := x.Choose(2, "execfile") == 1
 	syncAfter := x.Choose(2, "syncafter") == 1
+	// the request also names a cgroup directory the program is to be born in (a second descriptor that travels at the head
+	// of the list and must be taken off it, like the executable)
+	withCgroup := x.Bool("cgroup-descriptor")
 	list := make([]uintptr, n)
 	exp := make([]*ident, n)
 	for i := range list {
@@ -496,13 +499,22 @@ func c06container(x *mc.X) {
 	if withExec {
 		p.ExecFile = uintptr(L.execHi)
 	}
+	if withCgroup {
+		cg, err := os.Open("/sys/fs/cgroup/unified")
+		if err != nil {
+			x.Outcome("n/a:no-cgroup2-hierarchy")
+			return
+		}
+		defer cg.Close()
+		p.CgroupFD = cg.Fd()
+	}
 	c.Delete("/w/r.json")
 	ctx, cancel := context.WithTimeout(context.Background(), 30*time.Second)
 	res := c.Execve(ctx, p)
 	cancel()
 	if res.Status != runner.StatusNormal {
 		c09pool.drop()
-		x.Failf("C06/container-run-failed", "list %s exec=%v: %v %s", fmtList(list), withExec, res.Status, res.Error)
+		x.Failf("C06/container-run-failed", "list %s exec=%v cgroup=%v: %v %s", fmtList(list), withExec, withCgroup, res.Status, res.Error)
 		return
 	}
 	fr, err := c.Open([]container.OpenCmd{{Path: "/w/r.json", Flag: os.O_RDONLY}})
@@ -516,8 +528,8 @@ func c06container(x *mc.X) {
 		x.Failf("C06/container-no-report", "bad report: %v", err)
 		return
 	}
-	shape := c06judge(x, &rep, exp, n, fmt.Sprintf("container list %s exec=%v syncafter=%v", fmtList(list), withExec, syncAfter), 1)
-	x.Distinct(fmt.Sprint("c", fmtList(list), withExec, syncAfter, shape))
+	shape := c06judge(x, &rep, exp, n, fmt.Sprintf("container list %s exec=%v cgroup-descriptor=%v syncafter=%v", fmtList(list), withExec, withCgroup, syncAfter), 1)
+	x.Distinct(fmt.Sprint("c", fmtList(list), withExec, withCgroup, syncAfter, shape))
 	x.Outcome(fmt.Sprintf("container:len=%d:%s", n, shapeClass(shape)))
 }
 
